@@ -226,6 +226,54 @@ theorem span_after_stop (s : St) (dt w : Nat) (peer : Bool) (sp : Span) (h : s.s
 
 end partial_
 
+/-! ## The shutdown flush and `Retry-After` -/
+
+/-- **stop_flush_honours_retry_after** (the code as it is: the wait before the one retry is
+`Clock.Sleep`, on which `Stop` has no influence) — for every history of enqueues and clock
+advances, every batch size and every rate-limited upstream that announces `Retry-After` r with
+0 < r < 60 s and accepts from then on: when `Stop` returns nothing is pending, no batch is still
+asleep, no batch was dropped, no retry reached the upstream before the announced instant, and every
+event the transmission accepted — pending at `Stop` or in a batch already sleeping on its
+`Retry-After` when `Stop` was called — has been delivered.  (That it is delivered once only is
+checked on the implementation by the monitor.) -/
+theorem stop_flush_honours_retry_after (c : RCfg) (hr : 0 < c.r ∧ c.r < 60) (hw : c.stopWakes = false)
+    (ops : List ROp) :
+    (rrun c (ops ++ [.stop])).pending = [] ∧ (rrun c (ops ++ [.stop])).sleeping = [] ∧
+    (rrun c (ops ++ [.stop])).dropped = [] ∧ (rrun c (ops ++ [.stop])).early = 0 ∧
+    ∀ e ∈ (rrun c (ops ++ [.stop])).acc, ∃ b ∈ (rrun c (ops ++ [.stop])).delivered, e ∈ b.2 := by
+  have hi := rrun_inv c hr (ops ++ [.stop]) hw
+  have hst : (rrun c (ops ++ [.stop])).stopped = true := by
+    have : rrun c (ops ++ [.stop]) = (rrun c ops).stop c := by simp [rrun, List.foldl_append, rstep]
+    rw [this]; exact (rstop_inv c hr _ hw (rrun_inv c hr ops hw)).2
+  obtain ⟨hp, hs⟩ := hi.stopped hst
+  refine ⟨hp, hs, hi.core.dropped, hi.core.early, ?_⟩
+  intro e he
+  rcases hi.acc e he with hb | ⟨p, hpm, _⟩ | ⟨b, hbm, _⟩
+  · exact hb
+  · rw [hp] at hpm; cases hpm
+  · rw [hs] at hbm; cases hbm
+
+/-- in every reachable state: no retry before the announced instant, no batch given up -/
+theorem retry_waits_full_interval (c : RCfg) (hr : 0 < c.r ∧ c.r < 60) (hw : c.stopWakes = false)
+    (ops : List ROp) : (rrun c ops).early = 0 ∧ (rrun c ops).dropped = [] :=
+  ⟨(rrun_inv c hr ops hw).core.early, (rrun_inv c hr ops hw).core.dropped⟩
+
+/-- **refuted for a wait that `Stop` cuts short** (`select { case <-Clock.After(d): case <-d.stop: }`):
+one event pending for a rate-limited destination, `Stop`: the flush batch is refused, retried at
+once, refused again and dropped. -/
+theorem stop_flush_interruptible_wait_refuted :
+    ¬ ∀ (c : RCfg), 0 < c.r ∧ c.r < 60 → ∀ ops : List ROp,
+      (rrun c (ops ++ [.stop])).dropped = [] ∧ (rrun c (ops ++ [.stop])).early = 0 := by
+  intro h
+  have := h { mb := 2, r := 5, lim := [0], stopWakes := true } (by decide) [.ev 1 0]
+  revert this
+  decide
+
+-- a batch already asleep on its Retry-After when Stop is called, and one pending: both delivered
+example : (rrun { mb := 2, r := 5, lim := [0] } [.ev 1 0, .ev 2 0, .adv 2, .ev 3 0, .stop]).delivered =
+    [(0, [1, 2]), (0, [3])] := by decide
+example : (rrun { mb := 2, r := 5, lim := [0] } [.ev 1 0, .ev 2 0, .adv 2, .ev 3 0]).sleeping.length = 1 := by decide
+
 /-! ## `Stop`'s order: no producer sends on `tracesToSend` after it has been closed -/
 
 /-- **no_send_after_close** (the coded order: close the inputs, wait for the workers, close
